@@ -1183,6 +1183,31 @@ struct RtHarness : Harness
         return b;
     }
 
+    // Fault enumeration (C09): consecutive run indices of the fault profile
+    // form groups of 36 that share ONE generated configuration (streams,
+    // shapes, frame count <= 16, ring capacities, pacing); within a group the
+    // failing ordinal sweeps every frame call of the camera (0..N) and every
+    // append call of the storage device (0..N) - each under its own seeded
+    // schedule - and the remaining slots draw faults at random (incl. start
+    // failures).
+    int64_t enum_slot_ = -1;
+    uint64_t enum_cfg_seed_ = 0;
+
+    Plan generate_run(uint64_t pbase, uint64_t idx, const std::string& property,
+                      const std::string& profile) override
+    {
+        if (profile != "fault")
+            return generate(mix64(pbase, idx), property, profile);
+        const uint64_t G = 36;
+        enum_cfg_seed_ = mix64(pbase, (idx / G) * 2654435761ull + 17);
+        enum_slot_ = (int64_t)(idx % G);
+        Plan p = generate(mix64(pbase, idx), property, profile);
+        p.seti("enum.group", (int64_t)(idx / G));
+        p.seti("enum.slot", enum_slot_);
+        enum_slot_ = -1;
+        return p;
+    }
+
     Plan generate(uint64_t seed, const std::string& property,
                   const std::string& profile) override
     {
@@ -1191,7 +1216,7 @@ struct RtHarness : Harness
         p.property = property;
         p.profile = profile;
         p.seed = seed;
-        GenCtx x(mix64(seed, 0x77a1));
+        GenCtx x(mix64(enum_slot_ >= 0 ? enum_cfg_seed_ : seed, 0x77a1));
         x.prop = property;
         x.profile = profile;
         Rng& g = x.g;
@@ -1218,6 +1243,20 @@ struct RtHarness : Harness
                                    faults && (s == 0 || g.chance(0.5)));
                 if ((abort_prof || prog_prof) && !last && g.chance(0.25))
                     sc[s].trig = 1;
+                if (enum_slot_ >= 0 && a == 0 && s == 0 && faults) {
+                    StreamCfg& c = sc[0];
+                    if (c.n > 16)
+                        c.n = 1 + c.n % 16;
+                    uint64_t span = c.n + 1;
+                    if ((uint64_t)enum_slot_ < 2 * span) {
+                        c.cs.fail_frame = c.ss.fail_append = -1;
+                        c.cs.fail_start = c.ss.fail_start = 0;
+                        if ((uint64_t)enum_slot_ < span)
+                            c.cs.fail_frame = enum_slot_;
+                        else
+                            c.ss.fail_append = enum_slot_ - (int64_t)span;
+                    }
+                }
                 // a device that refuses to start (C07/C08: the runtime must
                 // stay stoppable and reusable)
                 if ((abort_prof || prog_prof) && !last && g.chance(0.08)) {
@@ -1941,7 +1980,7 @@ struct Reg
            (std::string(rule_common) +
             "non-trivial = an injected device fault actually fired")
              .c_str(),
-           { { "fault", 1500, 30000, true } },
+           { { "fault", 1512, 30240, true } },
            { "fault.camera_frame_fails", "fault.storage_append_fails",
              "fault.camera_start_fails", "fault.storage_start_fails" });
         mk("C10", "exploration",
